@@ -464,7 +464,7 @@ def span_windows(m):
     return [(edges[i], edges[i + 1]) for i in range(len(edges) - 1) if edges[i] < edges[i + 1]]
 
 
-SYMBOLIC_WINDOWS = []  # filled after measurement (DESIGN.md 8.2); empty = anchors only
+SYMBOLIC_WINDOWS = []  # fully symbolic end points: windows 2, 6, 10, 15 were measured beyond 20 minutes on 16 cores; none registered
 
 
 ANCHORS = ["2021-01-25T00:00:00", "2021-01-31T10:00:00", "2020-02-29T00:00:00", "2020-02-28T23:59:59.999", "1999-12-31T12:30:45.500", "1969-12-31T23:59:58.002", "1900-03-01T00:00:00.001", "2199-06-15T18:00:00"]
